@@ -7,6 +7,9 @@ import XsdataModel.Codegen.Types
 import XsdataModel.Codegen.SeqNum
 import XsdataModel.Codegen.Cli
 import XsdataModel.Codegen.Pipeline
+import XsdataModel.Codegen.Circular
+import XsdataModel.Codegen.Styles
+import XsdataModel.Codegen.Cache
 open Lean Proto Py Xs.Codegen
 
 namespace OpsCodegen
@@ -139,8 +142,26 @@ def run (op : String) (a : Json) : Option (Except String Json) :=
         | .arr #[k, v] => pure (← optStr k, ← asStr v)
         | _ => .error "expected [ns, package]")
       let nsPackage : Option Str → Str := fun ns => ((nspkg.find? (·.1 == ns)).map (·.2)).getD []
-      let r := if String.ofList style == "clusters" then layoutClusters package cs vo
-               else layoutNsClusters nsPackage cs vo
+      -- the styles without component search need the class locations and the package parts per namespace
+      let locs ← (← getArr a "classes").mapM (fun c => do
+        pure ({ qname := ← getStr c "qname", ns := ← getOptStr c "ns",
+                location := (← getOptStr c "location").getD [] } : LocClass))
+      let nsparts ← match a.getObjValD "nsparts" with
+        | .arr ps => ps.toList.mapM (fun p => do
+            match p with
+            | .arr #[k, v] => pure (← optStr k, ← strList v)
+            | _ => .error "expected [ns, parts]")
+        | _ => pure []
+      let nsParts : Option Str → List Str := fun ns => ((nsparts.find? (·.1 == ns)).map (·.2)).getD []
+      let commonDir := match a.getObjValD "common_dir" with
+        | .str x => x.toList
+        | _ => []
+      let r := match String.ofList style with
+        | "clusters" => layoutClusters package cs vo
+        | "namespaces" => layoutStyle (groupByNamespace nsParts) cs locs
+        | "single-package" => layoutStyle (fun l => .ok (groupAllTogether package l)) cs locs
+        | "filenames" => layoutStyle (groupByFilenames package commonDir) cs locs
+        | _ => layoutNsClusters nsPackage cs vo
       pure <| match r with
         | .ok (x, ms) => ok (jObj [("assign", jAssign x),
             ("modules", jList (fun m => Json.arr #[jStr m.module, jList jStr m.classes, jList jStr m.imports]) ms)])
@@ -181,6 +202,45 @@ def run (op : String) (a : Json) : Option (Except String Json) :=
       let chain ← (← getArr a "chain").mapM (fun c => do (← asArr c).mapM seqAttr)
       let out := (sequencePipelineChain chain).map seqOutput
       pure <| ok (jList (jList (fun r => Json.arr #[jInt r.1, jInt r.2.1, jOpt jInt r.2.2.1, jOpt jNat r.2.2.2])) out)
+  | "gen.circular" => some do
+      let g ← (← getArr a "classes").mapM (fun c => do
+        let tys ← (← getArr c "types").mapM (fun t => do
+          pure ({ target := ← getNat t "target", circular := ← getBool t "circular", own := ← getBool t "own" } : CType))
+        pure ({ ref := ← getNat c "ref", types := tys } : CClass))
+      let order ← (← getArr a "order").mapM (fun j => match j.getNat? with
+        | .ok n => .ok n
+        | .error _ => .error "expected nat")
+      pure <| match detectCircular g order with
+        | some g' => ok (jList (fun p => Json.arr #[jNat p.1, jList jBool p.2]) (circularFlags g'))
+        | none => err "FUEL"
+  | "gen.styles" => some do
+      let cs ← (← getArr a "classes").mapM (fun c => do
+        pure ({ qname := ← getStr c "qname", ns := ← getOptStr c "ns", location := ← getStr c "location" } : LocClass))
+      let style ← getStr a "style"
+      let package ← getStr a "package"
+      let commonDir ← getStr a "common_dir"
+      let nsparts ← (← getArr a "nsparts").mapM (fun p => do
+        match p with
+        | .arr #[k, v] => pure (← optStr k, ← strList v)
+        | _ => .error "expected [ns, parts]")
+      let nsParts : Option Str → List Str := fun ns => ((nsparts.find? (·.1 == ns)).map (·.2)).getD []
+      let out := fun (r : List (Str × Str × Str)) =>
+        ok (jList (fun t => Json.arr #[jStr t.1, Json.arr #[jStr t.2.1, jStr t.2.2]]) r)
+      match String.ofList style with
+      | "namespaces" => pure <| match groupByNamespace nsParts cs with
+          | .ok r => out r
+          | .error _ => err "IndexError"
+      | "single-package" => pure <| out (groupAllTogether package cs)
+      | "filenames" => pure <| match groupByFilenames package commonDir cs with
+          | .ok r => out r
+          | .error _ => err "ValueError"
+      | st => .error s!"unknown style {st}"
+  | "gen.cache" => some do
+      let runs ← (← getArr a "runs").mapM (fun r => do
+        pure (← getStrList r "uris", ← getStr r "package"))
+      -- the mapped classes are abstracted to "which (uris, package) they were mapped from"
+      let raw : List Str → Str → List Str := fun u p => u ++ [p]
+      pure <| ok (jList (jList jStr) (runHistory true raw [] runs))
   | "gen.process_order" => some do
       let us ← strPairs (a.getObjValD "uris")
       let classify : Str → ResType := fun u => ((us.find? (·.1 == u)).map (fun p => resType p.2)).getD .unknown
